@@ -3,6 +3,9 @@ tableaux are produced by the *model* (products of rotations applied to the ident
 code under test."""
 import itertools
 
+# register sizes at the byte, word and cache-line boundaries of every packed or vectorised representation
+BIG = [8, 9, 16, 17, 33, 64, 65]
+
 
 def unit(n2, k):
     return [1 if i == k else 0 for i in range(n2)]
